@@ -282,8 +282,8 @@ func (r *runner) submit(o hx.Op) {
 	if refused && (ans != "dummy" || cancelled) {
 		return // the client refuses locally before anything else; there is no in-process counterpart of that call
 	}
-	if len(blobs) == 0 && ans != "ok" && ans != "dummy" {
-		return // nothing to submit: the client answers without a call, so a scripted failure is never asked for
+	if len(blobs) == 0 && (cancelled || (ans != "ok" && ans != "dummy")) {
+		return // nothing to submit: the client answers without a call, so a scripted failure / the cancelled context is never consulted
 	}
 	if ref.Code != pres.Code {
 		c.Report("C16/classification-differs/submit/"+cause, fmt.Sprintf("submit: in-process %s, through the proxy %s (backing DA answers %q)", statusName(ref.Code), statusName(pres.Code), ans))
@@ -509,6 +509,7 @@ func gen(r *hx.Rng, tier string, w io.Writer) {
 	p("submit max=64 sizes=3,4 h=9 ans=other")
 	p("submit max=64 sizes=3,4 h=9 ans=msg:%s", hx.Hex([]byte("upstream: context canceled while dialing")))
 	p("retrieve h=9 n=3 ids=msg:%s get=ok", hx.Hex([]byte("upstream: context canceled while dialing")))
+	p("retrieve h=9 n=3 ids=ok get=msg:%s at=0", hx.Hex([]byte("context canceled: "+coreda.ErrHeightFromFuture.Error())))
 	p("retrieve h=9 n=3 ids=ctx get=ok")
 	p("retrieve h=9 n=3 ids=ok get=ok cancel=1")
 	p("retrieve h=9 n=3 ids=ok get=ctx at=0")
